@@ -41,6 +41,10 @@ def main():
             sm[sx] = sx + dts * st[(idx + 8) % 10] * gen.Rational(1, 2) + (dts * u if idx % 4 == 0 else 0) + st[(idx + 3) % 10] * st[(idx + 8) % 10] * gen.Rational(1, 8)
         d = gen.Definition(dts, st, [u], [], {a: gen.sympy.sympify(b) for a, b in sm.items()},
                            {"wide0": {"r_a": st[0] + st[8] * st[1], "r_b": st[9] - st[1]}})
+    # one update carries a term written in unsimplified form (it is zero): a generator that "tidies" the definition it was given
+    # shows in what the next generator prints
+    _a, _b = sorted(d.state, key=lambda x: x.name)[0], sorted(d.state, key=lambda x: x.name)[-1]
+    d.state_model[_a] = d.state_model[_a] + (_a + 1) * (_b + 1) - _a * _b - _a - _b - 1
     if k % 4 in (0, 3):
         # inputs the model declares but never reads (two controls, two calibration values): whatever the generator says about
         # them must not depend on set iteration order
